@@ -184,6 +184,24 @@ theorem comment_wellformed (s : Str) :
       runM ⟨.content, stk, rd, evs⟩ ("<!--".toList ++ commentText s ++ "-->".toList) = some ⟨.content, stk, rd, evs'⟩ :=
   ⟨commentText_ok s, fun stk rd evs => run_comment s stk rd evs⟩
 
+/-- **The repair loop reaches its fixpoint.**  For every string the text `comment()` puts between `<!--` and `-->`
+(`_encode`, then `while '--' in text: text = text.replace('--', '- -')`, then a blank after a final `-`) contains no
+`--` and does not end in `-`.  `'--' in text` is `hasDD`, `text.endswith('-')` is `endsDash`; no bound on the string,
+on the number or on the length of the hyphen runs (two rounds of the loop always suffice: `hasDD_fixDD`). -/
+theorem comment_text_no_double_hyphen (s : Str) :
+    hasDD (commentText s) = false ∧ endsDash (commentText s) = false :=
+  commentText_no_double_hyphen s
+
+/-- why it must be a loop: `str.replace` is non-overlapping, so ONE pass leaves a `--` behind for every run of three or
+more hyphens (`'---' -> '- --'`, `'----' -> '- -- -'`), whereas the loop gives `- - -`, `- - - -`; and the trailing
+blank is needed on top of it -/
+example : replaceDD "---".toList = "- --".toList ∧ hasDD (replaceDD "---".toList) = true ∧
+    replaceDD "----".toList = "- -- -".toList ∧ hasDD (replaceDD "----".toList) = true ∧
+    hasDD (replaceDD "a-----b".toList) = true ∧
+    commentText "---".toList = "- - - ".toList ∧ commentText "a----b".toList = "a- - - -b".toList ∧
+    commentText "--------".toList = "- - - - - - - - ".toList ∧
+    endsDash (fixDD 5 "x--".toList) = true := by decide
+
 /-- the strings of the former finding are now written as well-formed documents -/
 example :
     (document .xml "utf-8".toList [.start ['a'] [], .comment " a -- b ".toList, .stop ['a']]).toOption.map wellFormed = some true ∧
